@@ -172,6 +172,15 @@ def gen_profiles(rng, tier):
     return ps
 
 
+SIG_TOL = "callsite:find_peak_durations:two-day-window-holds-a-larger-load-of-the-previous-month-within-0.1kW"
+
+
+def two_day_window(series, k12, peak_day):
+    days = [31, 28, 31, 30, 31, 30, 31, 31, 30, 31, 30, 31]
+    st = 24 * sum(days[:k12]) + (peak_day - 1) * 24
+    return [series[(st + j) % 8760] for j in range(48)]
+
+
 def expected_duration(series, k12, peak, peak_day, kernel, rb, two_pi_k):
     """the peak duration from its definition (Cullin & Spitler 2011), written independently of the implementation:
     the 48 h of the day before the peak day and the peak day itself (the year wraps for 1 January), scaled (q_i - avg)/peak * q_i;
@@ -323,8 +332,17 @@ def oracle_profile(chk, which, p, o):
                 if pk > 0:
                     n += 1
                     if not (0 < dur <= 48):
-                        chk.violation("hybrid-profile", p, {"month": m, "duration": dur, "dir": nm}, "0 < peak duration <= 48 h")
-                        return n
+                        # the listed defect: the window's first day lies in the previous month and holds a load larger than this month's
+                        # peak by less than the 0.1 kW tolerance; the smaller monthly peak is kept and the inverse is extrapolated
+                        sig = None
+                        if "rej" in o:
+                            wmax = max(two_day_window(o["rej"] if sgn > 0 else o["ext"], k12, day))
+                            if pk < wmax < pk + 0.1 and dur > 48:
+                                sig = SIG_TOL
+                        chk.violation("hybrid-profile", p, {"month": m, "duration": dur, "dir": nm, "month_peak_kW": pk}, "0 < peak duration <= 48 h", signature=sig)
+                        if sig is None:
+                            return n
+                        continue
                     if not mine:
                         chk.violation("hybrid-profile", p, {"month": m, "peak": pk, "dir": nm, "segments": segs}, f"a pulse of magnitude {pk} with the {nm} sign")
                         return n
